@@ -119,6 +119,8 @@ type Decl struct {
 	Pred   string     `json:"pred"`
 	Arity  int        `json:"arity"`
 	Bounds [][]string `json:"bounds,omitempty"` // each row: one type expression (source text) per argument
+	// Modes: mode declarations, each a list of "+", "-" or "?" per argument (descr [mode(..), ..]).
+	Modes [][]string `json:"modes,omitempty"`
 }
 
 // Program is a source unit: declarations, facts (ground atoms) and rules.
@@ -243,6 +245,17 @@ func (d Decl) Source() string {
 		fmt.Fprintf(&sb, "A%d", i)
 	}
 	sb.WriteString(")")
+	if len(d.Modes) > 0 {
+		var ms []string
+		for _, m := range d.Modes {
+			var as []string
+			for _, a := range m {
+				as = append(as, `"`+a+`"`)
+			}
+			ms = append(ms, "mode("+strings.Join(as, ", ")+")")
+		}
+		sb.WriteString(" descr [" + strings.Join(ms, ", ") + "]")
+	}
 	for _, row := range d.Bounds {
 		sb.WriteString(" bound [" + strings.Join(row, ", ") + "]")
 	}
